@@ -91,6 +91,9 @@ def run(ctx):
              (dict(base, max_trials=14, max_id=14, max_ops=3, starts=[[('CreateStudy', 's')] + [('CreateTrial', 's', 'requested', 0.25)] * 9 + [('SuggestTrials', 's', 'a', 2)] + [('CreateTrial', 's', 'requested', 0.25)] * 2]), 2),
              (dict(multi, studies=('s_1', 'sx1', 'p@s_1'), backends=['ram', 'sqlmem', 'sqlfile'], max_trials=2, max_id=3), 7),
              (dict(multi, studies=('S%', 's1', 'p@S%', 'p@s1'), max_trials=2, max_id=3), 6)]
+  # the small targeted plans first: when the wall-clock budget runs out (loaded machine, or a change that forces the slow
+  # replay-only mode) it is the tail of the big general plan that is cut, not a whole scenario family
+  plans.sort(key=lambda pd: 0 if (pd[0].get('starts') or pd[0].get('fresh_backends') or pd[0].get('multi')) else 1)
   cov = {'states': 0, 'transitions': 0, 'traces_validated_against_impl': 0, 'samples': [], 'runs': [], 'exhaustive': True}
   for cfg, depth in plans:
     cfg = dict(cfg)
